@@ -118,7 +118,7 @@ def make_dm_contract(kind):
                 # ... and that component is a largest one: no vertex lies in a component with more vertices
                 cnt, comp, L = g.get("label_count"), g["comp"], g.get("L")
                 if cnt is None or L is None:
-                    out.append(("component_sizes_consulted", False, "P"))
+                    out.append(("component_sizes_consulted", False, "S"))
                 else:
                     v = e.fresh_int("rv", lo=0, hi=g["nG"])
                     e.axiom(g["label_pos"](comp(v.t)) >= -1)          # instantiate the listing fact at v
